@@ -14,6 +14,7 @@ import (
 
 func init() {
 	zzsv.Register("ZZ_C19_Sandwich", ZZ_C19_Sandwich)
+	zzsv.Register("ZZ_C19_LargePrograms", ZZ_C19_LargePrograms)
 	zzsv.Register("ZZ_C19_MapOrder", ZZ_C19_MapOrder)
 }
 
@@ -225,4 +226,64 @@ func ZZ_C19_Sandwich(sv *zzsv.T) {
 	sv.Observe("middle", e2 != nil)
 	sv.Assert("C19.sandwich.first", e1 == nil && zzSame(sv, o1, zInt(v*10+2)))
 	sv.Assert("C19.sandwich.same_again", (e1 != nil) == (e3 != nil) && (e1 != nil || (o1.Type() == o3.Type() && o1.Inspect() == o3.Inspect())))
+}
+
+// ZZ_C19_LargePrograms: programs big enough for any whole-script budget,
+// work list or table of the compiler and optimizer to matter: several
+// functions, each with a long chain of constant arithmetic (K terms: 300
+// quick, 700 thorough) - whatever is shared between the functions while the
+// script is prepared must not depend on the order in which a Go map hands
+// them out. Same compiled code, same results under every order.
+func ZZ_C19_LargePrograms(sv *zzsv.T) {
+	// (natively Go picks the orders: replayed up to 60 times, as above)
+	tries := 1
+	if !sv.Symbolic() {
+		tries = 60
+	}
+	for i := 0; i < tries; i++ {
+		zzC19Large(sv)
+		if sv.Failed() || i+1 == tries {
+			return
+		}
+		sv.ResetLog()
+	}
+}
+
+func zzC19Large(sv *zzsv.T) {
+	sv.Param("engine.msteps", 3000, 12000)
+	terms := sv.Param("large.terms", 300, 700)
+	nf := 2 + sv.Choice("functions", sv.Param("large.functions", 1, 2))
+	chain := "1"
+	for i := 1; i < terms; i++ {
+		chain += " + 1"
+	}
+	src := ""
+	call := ""
+	for f := 0; f < nf; f++ {
+		name := string(rune('p' + f))
+		src += "function " + name + "() { x = " + chain + "; return type(√9) + string(x); } "
+		if f > 0 {
+			call += " + "
+		}
+		call += name + "()"
+	}
+	src += "return " + call + ";"
+	sv.Note("script", "<"+string(rune('0'+nf))+" functions, each summing `1` a few hundred times, then type(√9)>")
+	sv.MapOrderNondet(false)
+	r1 := zzC19Do(sv, src, 0, 0, false)
+	sv.MapOrderNondet(true)
+	r2 := zzC19Do(sv, src, 0, 0, false)
+	sv.MapOrderNondet(false)
+	sv.Assert("C19.large.prepare_agrees", (r1 == nil) == (r2 == nil))
+	if r1 == nil || r2 == nil {
+		return
+	}
+	sv.Assert("C19.large.same_code", zzSameBytes(r1.code, r2.code))
+	for name, body := range r1.fcode {
+		sv.Assert("C19.large.same_function_code", zzSameBytes(body, r2.fcode[name]))
+	}
+	sv.Assert("C19.large.same_failure", r1.errs[0] == r2.errs[0])
+	if !r1.errs[0] && !r2.errs[0] {
+		sv.Assert("C19.large.same_result", r1.out[0].Type() == r2.out[0].Type() && r1.out[0].Inspect() == r2.out[0].Inspect())
+	}
 }
